@@ -110,6 +110,15 @@ class ImmediateEa(Constructor):
     tokens = [Imm16Token]
 
 
+class LongImmediateEa(Constructor):
+    """Access a 32 bit immediate value (long sized operations)"""
+
+    imm = Operand("imm", int)
+    syntax = Syntax(["#", imm])
+    patterns = {"ea_mode": 0b111, "ea_register": 0b100, "imm32": imm}
+    tokens = [Imm32Token]
+
+
 class PcRelEa(Constructor):
     """PC relative location"""
 
@@ -140,6 +149,11 @@ ea_modes = (
     ImmediateEa,
     PcRelEa,
     AbsNearEa,
+)
+
+# Source operands of long sized operations: the immediate is two words
+long_ea_modes = tuple(
+    LongImmediateEa if m is ImmediateEa else m for m in ea_modes
 )
 
 
@@ -185,7 +199,7 @@ def make_ea_dn(mnemonic, opcode, opmode):
 
     """
     dn = Operand("dn", DataRegister, read=True, write=True)
-    ea = Operand("ea", ea_modes)
+    ea = Operand("ea", long_ea_modes if opmode == 0b010 else ea_modes)
     syntax = Syntax([mnemonic, " ", ea, ",", " ", dn])
     patterns = {"opcode": opcode, "register": dn, "opmode": opmode}
     members = {
@@ -310,7 +324,7 @@ class Moveal(M68kInstruction):
     """32 bit movea"""
 
     dst = Operand("dst", AddressRegister, write=True)
-    ea = Operand("ea", ea_modes)
+    ea = Operand("ea", long_ea_modes)
     syntax = Syntax(["moveal", " ", ea, ",", " ", dst])
     patterns = {"opcode": 0x2, "opmode": 1, "register": dst}
     tokens = [M68kToken]
@@ -338,7 +352,7 @@ class Movel(M68kInstruction):
     """32 bit move"""
 
     dst_ea = Operand("dst_ea", dst_ea_modes)
-    ea = Operand("ea", ea_modes)
+    ea = Operand("ea", long_ea_modes)
     syntax = Syntax(["movel", " ", ea, ",", " ", dst_ea])
     patterns = {"opcode": 0x2}
     tokens = [M68kToken]
